@@ -163,10 +163,10 @@ func (w *world) classify(k int, gv int, gok bool, last cop) (what, msg string) {
 		return "hit-never-set", fmt.Sprintf("Get(%s) returned value #%d but the key was never Set", keyNames[k], gv)
 	case gok && !wok && !e.present:
 		return "hit-after-delete-or-reset", fmt.Sprintf("Get(%s) returned value #%d although the key was deleted/reset after its last Set", keyNames[k], gv)
-	case gok && !wok && e.reqTTL > e.ttl && w.m.now-e.setAt < e.reqTTL:
-		return "hit-beyond-MaxTTL", fmt.Sprintf("Get(%s) returned value #%d %.1fs after its Set with ttl=%ds under MaxTTL=%ds (lifetime is capped at %ds)", keyNames[k], gv, el, e.reqTTL/2, w.m.maxTTL, e.ttl/2)
 	case gok && !wok && w.m.now-e.setAt == e.ttl:
 		return "hit-exactly-at-expiry", fmt.Sprintf("Get(%s) returned value #%d exactly %.1fs after its Set with a lifetime of %ds (not strictly less than the TTL)", keyNames[k], gv, el, e.ttl/2)
+	case gok && !wok && e.reqTTL > e.ttl && w.m.now-e.setAt < e.reqTTL:
+		return "hit-beyond-MaxTTL", fmt.Sprintf("Get(%s) returned value #%d %.1fs after its Set with ttl=%ds under MaxTTL=%ds (lifetime is capped at %ds)", keyNames[k], gv, el, e.reqTTL/2, w.m.maxTTL, e.ttl/2)
 	case gok && !wok:
 		return "hit-after-expiry", fmt.Sprintf("Get(%s) returned value #%d %.1fs after its Set with a lifetime of %ds", keyNames[k], gv, el, e.ttl/2)
 	case gok && wok:
@@ -401,7 +401,10 @@ func (p *pool) run(n int, fn func(i int, s *slot)) (int, *caseT) {
 // stopReturns runs the history on a fresh cache and reports whether Stop
 // returns within the guard.
 func stopReturns(c *caseT) bool {
-	w := replayHist(c.MaxTTL, c.Hist)
+	return stopWithin(replayHist(c.MaxTTL, c.Hist))
+}
+
+func stopWithin(w *world) bool {
 	ch := make(chan struct{})
 	go func() { w.c.Stop(); close(ch) }()
 	select {
@@ -464,14 +467,17 @@ func run(r *enumx.Run, replay *enumx.ReplayCase) {
 	if r.Thorough() {
 		depth, treeDepth = 16, 6
 	}
-	r.Rule(fmt.Sprintf("explicit-state BFS over operation histories of the real ttlcache.Cache[int] (real haxmap, k8s FakeClock, CleanupInterval 1h so the periodic cleaner never fires) for MaxTTL in {0,2}: alphabet of %d operations Set(a|b, fresh value, ttl 1|2|3 s), Get(a|b), Delete(a|b), Cleanup, Reset, Advance(0.5|1|2.5 s); all histories of length <= %d modulo the canonical key (reference: per key present?, age rank of the value, remaining life; real object: per key physically absent / value as expected / stale, exp-now); successors by replaying the shortest history on a fresh cache plus one operation, then Get of every key compared with the reference, then Stop must return. Cross-check: the UNMERGED tree of all %d^%d histories per MaxTTL on one cache each, every key observed after every operation; the set of canonical states it reaches (with their depths) must equal the BFS set up to that depth. evaluations = operations executed on a real cache and compared; non-trivial = executed in a state in which the reference holds at least one entry or creating one.", len(alphabet), depth, len(alphabet), treeDepth))
+	r.Rule(fmt.Sprintf("explicit-state BFS over operation histories of the real ttlcache.Cache[int] (real haxmap, k8s FakeClock, CleanupInterval 1h so the periodic cleaner never fires) for MaxTTL in {0,2}: alphabet of %d operations Set(a|b, fresh value, ttl 1|2|3 s), Get(a|b), Delete(a|b), Cleanup, Reset, Advance(0.5|1|2.5 s); all histories of length <= %d modulo the canonical key (reference: per key present?, age rank of the value, remaining life; real object: per key physically absent / value as expected / stale, exp-now); successors by replaying the shortest history on a fresh cache plus one operation, then Get of every key compared with the reference, then Stop must return. Cross-check: the UNMERGED tree of all %d^%d histories per MaxTTL on one cache each, every key observed after every operation; the set of canonical states it reaches (with their depths) must equal the BFS set up to that depth. evaluations = operations executed on a real cache and compared; distinct non-trivial = executed in a state in which the reference holds at least one entry, or creating one, counted once per distinct (canonical state, operation) pair in the BFS and once per distinct history prefix in the tree.", len(alphabet), depth, len(alphabet), treeDepth))
 	p := &pool{r}
 	seen := map[string]int{}
 	var frontier []state
 	for _, m := range []int{0, 2} {
 		w := newWorld(m)
 		k := w.key()
-		w.c.Stop()
+		if !stopWithin(w) {
+			handleHang(r, &caseT{m, "stop", nil})
+			return
+		}
 		seen[k] = 0
 		frontier = append(frontier, state{m, nil, k})
 	}
@@ -567,6 +573,11 @@ func run(r *enumx.Run, replay *enumx.ReplayCase) {
 	for i := 0; i < treeDepth; i++ {
 		total *= A
 	}
+	pow := make([]int, treeDepth+1)
+	pow[0] = 1
+	for i := 1; i <= treeDepth; i++ {
+		pow[i] = pow[i-1] * A
+	}
 	chunk := total / (A * A)
 	if treeDepth < 2 {
 		chunk = total
@@ -596,7 +607,7 @@ func run(r *enumx.Run, replay *enumx.ReplayCase) {
 					what, msg = w.observe(o)
 				}
 				treeOps.Add(1)
-				if !triv {
+				if !triv && idx%pow[treeDepth-1-j] == 0 { // first execution of this prefix
 					treeNT.Add(1)
 				}
 				if what != "" {
